@@ -443,6 +443,49 @@ META = {
                   needs='option nodes of the mapped source choice that exist in every architecture through another '
                         'parent, and two sibling architectures resolved through the same mapping object',
                   strengthened=None),
+    # ---- fifth round ----
+    'C02-e': dict(breaks='C02', file='adsg_core/graph/adsg_basic.py (_get_unreachable_nodes)',
+                  change='the reachability search follows every edge type (successors()), so incompatibility edges count as derivations',
+                  needs='an underivable derivation loop (not removable as floating nodes) with an incompatibility constraint '
+                        'to a derivable node: the loop and what hangs below it stay in every instance',
+                  strengthened='the "unreachable part" class may carry an incompatibility constraint into the reachable graph'),
+    'C06-e': dict(breaks='C06', file='adsg_core/graph/adsg.py (add_incompatibility_constraint)',
+                  change='nodes that are not in the graph yet are dropped from a new constraint',
+                  needs='constraints declared before the edges / choices that introduce their nodes', strengthened=None),
+    'C08-e': dict(breaks='C08', file='adsg_core/graph/influence_matrix.py (apply_selection_choice)',
+                  change='early return for a choice without options BEFORE the defensive copy of the status array',
+                  needs='a selection choice that lost all its options (PERMUTATION over more choices than options) '
+                        'resolved on a copy that still shares its status array with the original',
+                  strengthened='C08 constrain-on-copy scenarios: every constraint type x 2..3 choices x 2..3 options, '
+                               'original and an earlier copy re-observed'),
+    'C10-e': dict(breaks='C10', file='adsg_core/optimization/assign_enc/patterns/patterns.py (AssigningPatternEncoder._correct_vector)',
+                  change='the list of entries that can still be incremented is computed once, outside the loop',
+                  needs='assigning-pattern settings with source minimum >= 2: "Pattern encoder should never impute"',
+                  strengthened='NOT CAUGHT, and left so: the failure is exactly the symptom of the open finding '
+                               'KF-PATTERN-ENC (pattern encoders accept settings they then cannot decode), so the matcher '
+                               'attributes it to that finding; telling a new pattern-encoder failure from the known ones '
+                               'would need a specification of which settings each pattern encoder is meant to support, '
+                               'which the library does not give'),
+    'C13-e': dict(breaks='C13 (linked design-variable nodes)', file='adsg_core/graph/adsg_nodes.py (correct_value)',
+                  change='same as C16-a: relative position computed before clamping (found independently)',
+                  needs='an out-of-bounds write to a LINKED continuous design variable',
+                  strengthened='C13\'s linked-DV part writes out-of-bounds values too (C16 caught it from the start)'),
+    'C14-e': dict(breaks='C14', file='adsg_core/optimization/hierarchy/fast.py (_get_n_combinations)',
+                  change='the upper bound of combinations is multiplied as int64 (dtype=float removed)',
+                  needs='a design space of 2^63 or more combinations (63+ binary choices): negative / zero bound, the '
+                        'fast encoder refuses a feasible graph',
+                  strengthened='C14 huge-space cases (62/63/64/70 binary, 41 ternary choices; fast encoder only)'),
+    'C18-e': dict(breaks='C18', file='adsg_core/graph/adsg.py (get_option_nodes)',
+                  change='options are collected in a set before sorting; ties in (decision id, option id) follow hash order',
+                  needs='a node that is an option of two choices at different positions (two options of the second '
+                        'choice then carry the same option number), compared across processes / rebuilds',
+                  strengthened='C18 option-tie class'),
+    'C19-e': dict(breaks='C19', file='adsg_core/optimization/assign_enc/matrix.py (NodeExistence.*_exists_mask)',
+                  change='the memoised mask is stored on the shared pattern object before it is filled',
+                  needs='the time limit expiring inside the few microseconds of the fill loop; the half-filled mask then '
+                        'answers every later call',
+                  strengthened='C19 slows the statements of memoising accessors through sys.monitoring so that the '
+                               'limit lands inside them, then compares with an undisturbed equal object'),
 }
 
 
